@@ -158,7 +158,7 @@ class C12(Sim):
     PROBES = ["zero_vector", "point_box", "empty_box", "empty_intersection", "infinite_box", "raising_call",
               "errmode_nondefault", "errmode_flip", "shared_array_boxes", "pad_aliased_box", "boundary_point", "contained_point",
               "outside_point", "degenerate_triangle", "parallel_lines", "parallel_vectors", "inplace_normalize", "mesh_box",
-              "tiny_scale", "huge_scale", "same_array_twice", "needle_corner"]
+              "tiny_scale", "huge_scale", "same_array_twice", "needle_corner", "integer_vector_rotated"]
     QUICK_RUNS = 8000
     THOROUGH_RUNS = 1000000
     BLOCK = 100
@@ -740,6 +740,12 @@ class C12(Sim):
             ev["which"] = r.choice(NORMS)
         if op in ("rotate_2d", "rotate_axis"):
             ev["ang"], ev["ang2"] = self._angle(r), self._angle(r)
+            if r.chance(0.3):
+                # the same rotation applied to an INTEGER-typed vector (Vec(1, 0, 2), a list of ints): still an isometry
+                n = 2 if op == "rotate_2d" else 3
+                iv = [r.randint(-6, 6) for _ in range(n)]
+                if any(iv):
+                    ev["ivec"] = iv
         if op == "face_basis":
             ev["form"] = r.choice(["args", "list"])
         if op in ("norm", "dot", "det2", "det3", "normalized"):
@@ -1643,10 +1649,29 @@ class C12(Sim):
                             "%s(%s(v, %r), %r) = %r but %s(v, %r) = %r  (v = %r)" % (name, name, a1, a2, r3, name, a1 + a2, r4, u))
         return o1
 
+    def _int_vector_law(self, ev, rot, n, name, site):
+        """rotation of an integer-typed vector: same isometry (the statement quantifies over all finite inputs, whatever their dtype)"""
+        iv = ev.get("ivec")
+        if not iv:
+            return
+        self._settle()
+        self.probes["integer_vector_rotated"] += 1
+        a1 = float(ev["ang"])
+        nu = vec_norm([float(x) for x in iv])
+        for form, arg in (("vec", self.Vec(np.array(iv, dtype=np.int64))), ("list", list(iv))):
+            o = rot(arg, a1)
+            self._need_ok(o, "rotation-isometry", name, "int/" + form)
+            r1 = as_floats(o.value, n)
+            if r1 is None or abs(vec_norm(r1) - nu) > REL * nu:
+                self._bad_value("rotation-isometry", name, site, "int/" + form,
+                                "%s(%r [integer %s], %r) = %r: norm %r, but |v| = %r" % (name, iv, form, a1, o.value, None if r1 is None else vec_norm(r1), nu))
+            self._settle()
+
     def _op_rotate_2d(self, ev):
         i, i2 = ev["a"]
         rot = lambda v, a: self._call(ev, self.G.rotate_2d, v, a, arrs=(i, i2))
         out = self._rot_laws(ev, rot, i, i2, 2, "rotate_2d", "geometry.rotate_2d")
+        self._int_vector_law(ev, rot, 2, "rotate_2d", "geometry.rotate_2d")
         return self._done(out)
 
     def _op_rotate_axis(self, ev):
@@ -1667,6 +1692,7 @@ class C12(Sim):
         if r5 is None or vec_norm([x - y for x, y in zip(r5, axv)]) > REL * vec_norm(axv):
             self._bad_value("rotation-fixes-axis", "rotate_around_axis", "geometry.rotate_around_axis", ac,
                             "rotating the axis %r about itself by %r gives %r" % (axv, a1, o5.value))
+        self._int_vector_law(ev, rot, 3, "rotate_around_axis", "geometry.rotate_around_axis")
         return self._done(out)
 
     # ------------------------------------------------------------------------------------------
